@@ -323,6 +323,12 @@ fn add_case(cx: &mut Ctx, family: &str, w: &World, c: &KCase) {
         st.count(&format!("first_route_edges:{}", lens.first().copied().unwrap_or(0).min(6)));
     }
     st.count(&format!("n:{}", (w.n + 7) / 8 * 8));
+    if !w.turn.is_empty() {
+        st.count("has_turn_costs");
+    }
+    if w.init != 0.0 {
+        st.count("nonzero_initial_state");
+    }
     if o.routes.len() >= 2 || !o.is_ok() {
         st.mark_nontrivial(&format!("{}|{}", world_to_json(w), case_to_json(c)));
     }
@@ -355,6 +361,12 @@ fn loopy() -> World {
     World::new(6, vec![(0, 1), (1, 2), (2, 3), (1, 4), (4, 1), (2, 5), (5, 2), (4, 2)], vec![1.0, 1.5, 1.25, 0.5, 0.75, 0.25, 0.375, 3.0])
 }
 
+/// shortest 0-1-2-7; a lane 0-3-4-5-7 and its variant 0-3-4-6-7, which shares half its edges with the lane and none
+/// with the shortest route: at threshold 0.3 the variant is dissimilar to the FIRST route but similar to the SECOND
+fn lane_variant() -> World {
+    World::new(8, vec![(0, 1), (1, 2), (2, 7), (0, 3), (3, 4), (4, 5), (5, 7), (4, 6), (6, 7)], vec![3.0, 3.25, 2.75, 1.0, 1.0, 1.0, 8.25, 1.5, 8.5])
+}
+
 fn boundary_cases() -> Vec<(String, World, KCase)> {
     let mut out: Vec<(String, World, KCase)> = vec![];
     let d = diamond();
@@ -383,6 +395,11 @@ fn boundary_cases() -> Vec<(String, World, KCase)> {
             c.sim = Some(sim);
             out.push((format!("sv_two_lanes_{:?}", sim), two_lanes(), c));
         }
+    }
+    for sim in [Sim::AcceptAll, Sim::EdgeId(1), Sim::Distance(1), Sim::EdgeId(2), Sim::EdgeId(4)] {
+        let mut c = base_case(KAlg::SingleVia, 4, 0, 7);
+        c.sim = Some(sim);
+        out.push((format!("sv_lane_variant_{:?}", sim), lane_variant(), c));
     }
     let mut c = base_case(KAlg::SingleVia, 4, 0, 3);
     c.sim = Some(Sim::AcceptAll);
@@ -661,15 +678,33 @@ fn main() {
             let hk = if r.chance(3, 4) { HKind::Exact } else { HKind::Zero };
             gen_heuristic(&mut r, &mut w, Dir::Forward, Some(t), hk);
         }
-        let family = format!("{}_{}", kind, if fam == CostFamily::TieFree { "tie_free" } else { "tie_rich" });
+        // one world in five charges turns (access model) and one in four starts from a non-zero state: the reverse
+        // half of an alternative must then be re-traversed with the right previous edge and start state
+        let mut extras = String::new();
+        if r.chance(1, 5) {
+            let m = w.edges.len();
+            for a in 0..m {
+                for b in 0..m {
+                    if w.edges[a].1 == w.edges[b].0 && a != b && r.chance(1, 3) && w.turn.len() < 40 {
+                        let c = if fam == CostFamily::TieFree { r.range(1, 4096) as f64 / 64.0 } else { r.range(1, 2) as f64 };
+                        w.turn.push((a, b, c));
+                    }
+                }
+            }
+            extras.push_str("_turns");
+        }
+        if r.chance(1, 4) {
+            w.init = if fam == CostFamily::TieFree { r.range(1, 1 << 16) as f64 / 64.0 } else { 100.0 };
+        }
+        let family = format!("{}_{}{}", kind, if fam == CostFamily::TieFree { "tie_free" } else { "tie_rich" }, extras);
         // several configurations per world (the world is the expensive part to vary)
         let per = 2 + r.below(4);
         for _ in 0..per {
             if cx.st.next_id() >= a.n {
                 break;
             }
-            let yen = r.chance(1, 5);
-            let yen_big = yen && r.chance(1, 4) && cx.hangs < MAX_HANGS;
+            let yen = r.chance(1, 8);
+            let yen_big = yen && r.chance(1, 3) && cx.hangs < MAX_HANGS;
             let k = if yen && !yen_big { 1 } else { r.range(1, 6) as usize };
             let (term, term_explicit) = pick_term(&mut r);
             let (kc, qk) = if r.chance(1, 4) { (r.range(1, 6) as usize, QK::Nat(k as u64)) } else { (k, QK::Absent) };
